@@ -34,8 +34,9 @@ const (
 	tBool
 	tBytes // []byte
 	tErr
-	tStr // string (Bytes in Lean; never nil)
+	tStr    // string (Bytes in Lean; never nil)
 	tOpaque // a pointer to a struct in a result position: only nil / non-nil is tracked (Bool)
+	tList   // []string produced by strings.Split: List Bytes
 )
 
 // structField: one field of a struct type declared in the translated file.
@@ -59,6 +60,17 @@ type translator struct {
 	outs       []string                 // receiver fields the body assigns: appended to every result tuple
 	usesEnc    bool                     // the body calls encodeLengthEncodedStrings(writer, parts)
 	usesDec    bool                     // the body calls decodeLengthEncodedStrings(reader, parts)
+	flatBytes  bool                     // []byte values are plain Bytes (nil = empty): for functions whose callers only look at len()
+	funcParams map[string]funcParam     // calls of other functions of the package: parameters of the translation
+	usedFuncs  []string
+}
+
+// funcParam: a function of the package that the translated function calls; the translation takes it
+// as a parameter (its own translation, or the model's counterpart, is supplied by the tie theorem).
+type funcParam struct {
+	lean string
+	args []trType
+	res  []trType
 }
 
 // lvalue: the variable an assignable expression of the subset denotes (identifier, field of the
@@ -109,7 +121,7 @@ func (t *translator) partsList(e ast.Expr) (string, int, bool) {
 	return "[" + strings.Join(el, ", ") + "]", size, true
 }
 
-var leanTy = map[trType]string{tNat: "Int", tBool: "Bool", tBytes: "Bytes", tErr: "Bool", tStr: "Bytes", tOpaque: "Bool"}
+var leanTy = map[trType]string{tNat: "Int", tBool: "Bool", tBytes: "Bytes", tErr: "Bool", tStr: "Bytes", tOpaque: "Bool", tList: "List Bytes"}
 
 // library calls of the subset: package.selector -> (lean function of the prelude, argument types, result type)
 var libCalls = map[string]struct {
@@ -120,6 +132,7 @@ var libCalls = map[string]struct {
 	"filepath.Ext":           {"Gen.pathExt", []trType{tStr}, tStr},
 	"strings.TrimSuffix":     {"Gen.trimSuffix", []trType{tStr, tStr}, tStr},
 	"userNameRe.MatchString": {"Gen.userNameReMatch", []trType{tStr}, tBool},
+	"strings.Split":          {"Gen.stringsSplit", []trType{tStr, tStr}, tList},
 }
 
 // library calls with two results (used in `a, b := f(..)`): lean function returning a pair
@@ -129,6 +142,8 @@ var libCalls2 = map[string]struct {
 	res  [2]trType
 }{
 	"strings.CutSuffix": {"Gen.cutSuffix", []trType{tStr, tStr}, [2]trType{tStr, tBool}},
+	// the data result on an error is not modelled (empty): the translated callers return before using it
+	"base64.URLEncoding.DecodeString": {"Gen.b64urlDecode", []trType{tStr}, [2]trType{tBytes, tErr}},
 }
 
 // typeOf: the type of an expression of the subset as far as comparisons and switch tags need it.
@@ -161,6 +176,11 @@ func (t *translator) typeOf(e ast.Expr) trType {
 	case *ast.SelectorExpr, *ast.IndexExpr:
 		if n, ok := t.lvalue(e); ok {
 			return t.vars[n]
+		}
+		if ix, ok := e.(*ast.IndexExpr); ok {
+			if id, ok := ix.X.(*ast.Ident); ok && t.vars[id.Name] == tList {
+				return tStr
+			}
 		}
 	case *ast.UnaryExpr:
 		if x.Op == token.NOT {
@@ -275,7 +295,20 @@ func (t *translator) expr(e ast.Expr, want trType) string {
 			}
 			return leanIdent(n)
 		}
+		if ix, ok := e.(*ast.IndexExpr); ok && isBytesLike(want) {
+			// parts[k] for the result of strings.Split (Go panics when out of range; total here)
+			if id, ok := ix.X.(*ast.Ident); ok && t.vars[id.Name] == tList {
+				if k, ok := litInt(ix.Index); ok && k >= 0 {
+					return fmt.Sprintf("(%s.getD %d [])", leanIdent(id.Name), k)
+				}
+			}
+		}
 	case *ast.CallExpr:
+		if c, ok := isCall(e, "", "len"); ok && want == tNat && len(c.Args) == 1 {
+			if id, ok := c.Args[0].(*ast.Ident); ok && t.vars[id.Name] == tList {
+				return "((" + leanIdent(id.Name) + ").length : Int)"
+			}
+		}
 		if c, ok := isCall(e, "", "encodeLengthEncodedStrings"); ok && want == tErr && len(c.Args) == 2 {
 			// the loop over the parts is modelled (Sasl.encodeParts), not translated: the call is the
 			// parameter `enc` applied to the parts
@@ -343,6 +376,12 @@ func (t *translator) expr(e ast.Expr, want trType) string {
 				return "(" + t.expr(x.X, tBool) + " " + op + " " + t.expr(x.Y, tBool) + ")"
 			}
 		case token.LSS, token.LEQ, token.GTR, token.GEQ, token.EQL, token.NEQ:
+			if id, ok := x.Y.(*ast.Ident); ok && id.Name == "nil" && want == tBool && t.typeOf(x.X) == tErr && (x.Op == token.EQL || x.Op == token.NEQ) {
+				if x.Op == token.NEQ {
+					return t.expr(x.X, tErr)
+				}
+				return "(!" + t.expr(x.X, tErr) + ")"
+			}
 			if want == tBool {
 				op := map[token.Token]string{token.LSS: "<", token.LEQ: "≤", token.GTR: ">", token.GEQ: "≥", token.EQL: "=", token.NEQ: "≠"}[x.Op]
 				// operands: ints, or strings for == and !=
@@ -507,7 +546,7 @@ func (t *translator) stmts(list []ast.Stmt, ind string) string {
 		var parts []string
 		if len(x.Results) == 0 && len(t.resNames) == len(t.results) && len(t.results) > 0 && t.resNames[0] != "" {
 			for i, n := range t.resNames {
-				if t.results[i] == tBytes {
+				if t.results[i] == tBytes && !t.flatBytes {
 					return t.fail("bare return of a []byte result")
 				}
 				parts = append(parts, leanIdent(n))
@@ -522,7 +561,13 @@ func (t *translator) stmts(list []ast.Stmt, ind string) string {
 			switch t.results[i] {
 			case tBytes:
 				if id, ok := r.(*ast.Ident); ok && id.Name == "nil" {
-					parts = append(parts, "none")
+					if t.flatBytes {
+						parts = append(parts, "([] : Bytes)")
+					} else {
+						parts = append(parts, "none")
+					}
+				} else if t.flatBytes {
+					parts = append(parts, t.expr(r, tBytes))
 				} else {
 					parts = append(parts, "some "+t.expr(r, tBytes))
 				}
@@ -537,7 +582,7 @@ func (t *translator) stmts(list []ast.Stmt, ind string) string {
 			// assignment to a local, a named result, a receiver field or an array slot: the rest of
 			// the path sees the new value
 			if n, ok := t.lvalue(x.Lhs[0]); ok {
-				if ty := t.vars[n]; ty != tBytes {
+				if ty := t.vars[n]; ty != tBytes || t.flatBytes {
 					v := t.expr(x.Rhs[0], ty)
 					if x.Tok == token.ADD_ASSIGN {
 						switch {
@@ -578,36 +623,77 @@ func (t *translator) stmts(list []ast.Stmt, ind string) string {
 				return t.fail("make outside the subset")
 			}
 		}
-		if x.Tok == token.DEFINE && len(x.Lhs) == 2 && len(x.Rhs) == 1 {
-			// a, b := f(..) for a library function with two results
+		if (x.Tok == token.DEFINE || x.Tok == token.ASSIGN) && len(x.Lhs) >= 2 && len(x.Rhs) == 1 {
+			// a, b := f(..) / a, b = f(..) for a library function with two results or for a function of
+			// the package that is a parameter of the translation
 			if call, ok := x.Rhs[0].(*ast.CallExpr); ok {
+				var lean string
+				var args, res []trType
+				found := false
 				if sel, ok := call.Fun.(*ast.SelectorExpr); ok {
-					if lc, ok := libCalls2[exprString(sel)]; ok && len(call.Args) == len(lc.args) {
-						id0, ok0 := x.Lhs[0].(*ast.Ident)
-						id1, ok1 := x.Lhs[1].(*ast.Ident)
-						if ok0 && ok1 {
-							for _, id := range []*ast.Ident{id0, id1} {
-								if _, dup := t.vars[id.Name]; dup {
-									return t.fail("redeclaration of %s", id.Name)
-								}
-							}
-							callS := "(" + lc.lean
-							for i, a := range call.Args {
-								callS += " " + paren(t.expr(a, lc.args[i]))
-							}
-							callS += ")"
-							out := ""
-							if id0.Name != "_" {
-								t.vars[id0.Name] = lc.res[0]
-								out += fmt.Sprintf("let %s : %s := %s.1\n%s", leanIdent(id0.Name), leanTy[lc.res[0]], callS, ind)
-							}
-							if id1.Name != "_" {
-								t.vars[id1.Name] = lc.res[1]
-								out += fmt.Sprintf("let %s : %s := %s.2\n%s", leanIdent(id1.Name), leanTy[lc.res[1]], callS, ind)
-							}
-							return out + t.stmts(rest, ind)
+					if lc, ok := libCalls2[exprString(sel)]; ok {
+						lean, args, res, found = lc.lean, lc.args, lc.res[:], true
+					}
+				}
+				if id, ok := call.Fun.(*ast.Ident); ok {
+					if fp, ok := t.funcParams[id.Name]; ok {
+						lean, args, res, found = fp.lean, fp.args, fp.res, true
+						seen := false
+						for _, u := range t.usedFuncs {
+							seen = seen || u == id.Name
+						}
+						if !seen {
+							t.usedFuncs = append(t.usedFuncs, id.Name)
 						}
 					}
+				}
+				if found && len(call.Args) == len(args) && len(x.Lhs) == len(res) {
+					callS := "(" + lean
+					for i, a := range call.Args {
+						callS += " " + paren(t.expr(a, args[i]))
+					}
+					callS += ")"
+					// every target first (a DEFINE must introduce at least the names that are new)
+					var names []string
+					for i, l := range x.Lhs {
+						id, isId := l.(*ast.Ident)
+						if isId && id.Name == "_" {
+							names = append(names, "")
+							continue
+						}
+						if x.Tok == token.DEFINE {
+							if !isId {
+								return t.fail("multi-value definition outside the subset")
+							}
+							if old, dup := t.vars[id.Name]; dup && old != res[i] {
+								return t.fail("redeclaration of %s at another type", id.Name)
+							}
+							if res[i] == tBytes && !t.flatBytes {
+								return t.fail("local []byte variable")
+							}
+							t.vars[id.Name] = res[i]
+							names = append(names, id.Name)
+							continue
+						}
+						n, ok := t.lvalue(l)
+						if !ok || !(t.vars[n] == res[i] || (isBytesLike(t.vars[n]) && isBytesLike(res[i]))) || (t.vars[n] == tBytes && !t.flatBytes) {
+							return t.fail("multi-value assignment outside the subset")
+						}
+						names = append(names, n)
+					}
+					out := ""
+					tmp := callS
+					for i, n := range names {
+						if n == "" {
+							continue
+						}
+						proj := tmp + strings.Repeat(".2", i)
+						if i < len(names)-1 {
+							proj += ".1"
+						}
+						out += fmt.Sprintf("let %s : %s := %s\n%s", leanIdent(n), leanTy[t.vars[n]], proj, ind)
+					}
+					return out + t.stmts(rest, ind)
 				}
 			}
 		}
@@ -644,7 +730,7 @@ func (t *translator) stmts(list []ast.Stmt, ind string) string {
 			}
 			// locals: ints, strings, bools (by the type of the right-hand side)
 			ty := t.typeOf(x.Rhs[0])
-			if ty == tBytes {
+			if ty == tBytes && !t.flatBytes {
 				return t.fail("local []byte variable")
 			}
 			v := t.expr(x.Rhs[0], ty)
@@ -789,6 +875,13 @@ func translateFunc(f *ast.File, fset *token.FileSet, name, leanName, failType st
 }
 
 func translateMethod(f *ast.File, fset *token.FileSet, recv, name, leanName, failType string, consts map[string]int, sconsts map[string]string) string {
+	return translateWith(f, fset, recv, name, leanName, failType, consts, sconsts, false, nil)
+}
+
+// translateWith: as translateMethod; flat = []byte values are plain Bytes (nil = empty); funcs = the
+// functions of the package the body may call, taken as parameters (in the order of first use, after
+// enc / dec and before the receiver's fields).
+func translateWith(f *ast.File, fset *token.FileSet, recv, name, leanName, failType string, consts map[string]int, sconsts map[string]string, flat bool, funcs map[string]funcParam) string {
 	var fd *ast.FuncDecl
 	for _, d := range f.Decls {
 		x, ok := d.(*ast.FuncDecl)
@@ -804,7 +897,7 @@ func translateMethod(f *ast.File, fset *token.FileSet, recv, name, leanName, fai
 			}
 		}
 	}
-	t := &translator{consts: consts, sconsts: sconsts, vars: map[string]trType{}, structs: fileStructs(f), structVars: map[string]string{}}
+	t := &translator{consts: consts, sconsts: sconsts, vars: map[string]trType{}, structs: fileStructs(f), structVars: map[string]string{}, flatBytes: flat, funcParams: funcs}
 	var params, ptypes, rtypes []string
 	addStruct := func(v, ty string) {
 		t.structVars[v] = ty
@@ -880,7 +973,7 @@ func translateMethod(f *ast.File, fset *token.FileSet, recv, name, leanName, fai
 					} else {
 						t.resNames = append(t.resNames, "")
 					}
-					if ty == tBytes {
+					if ty == tBytes && !t.flatBytes {
 						rtypes = append(rtypes, "Option Bytes")
 					} else {
 						rtypes = append(rtypes, leanTy[ty])
@@ -901,8 +994,11 @@ func translateMethod(f *ast.File, fset *token.FileSet, recv, name, leanName, fai
 				continue
 			}
 			zero := map[trType]string{tNat: "(0 : Int)", tBool: "false", tErr: "false", tStr: "[]", tOpaque: "false"}[t.results[i]]
-			if t.results[i] == tBytes {
+			if t.results[i] == tBytes && !t.flatBytes {
 				continue // usable in explicit returns only (nil vs slice is not tracked through variables)
+			}
+			if t.results[i] == tBytes {
+				zero = "[]"
 			}
 			t.vars[n] = t.results[i]
 			prefix += fmt.Sprintf("let %s : %s := %s\n    ", leanIdent(n), leanTy[t.results[i]], zero)
@@ -915,6 +1011,19 @@ func translateMethod(f *ast.File, fset *token.FileSet, recv, name, leanName, fai
 		fmt.Fprintf(&w, "/-- NOT TRANSLATED: %s -/\n", strings.ReplaceAll(t.err, "-/", "- /"))
 		fmt.Fprintf(&w, "def %s : Option (%s) := none\n", leanName, failType)
 		return w.String()
+	}
+	for i := len(t.usedFuncs) - 1; i >= 0; i-- {
+		fp := t.funcParams[t.usedFuncs[i]]
+		var at []string
+		for _, a := range fp.args {
+			at = append(at, leanTy[a])
+		}
+		var rt []string
+		for _, r := range fp.res {
+			rt = append(rt, leanTy[r])
+		}
+		params = append([]string{fp.lean}, params...)
+		ptypes = append([]string{"(" + strings.Join(at, " → ") + " → " + strings.Join(rt, " × ") + ")"}, ptypes...)
 	}
 	if t.usesDec {
 		params = append([]string{"dec"}, params...)
